@@ -123,6 +123,12 @@ func RunMutant(m Mutant, repo, verif string) MutantResult {
 	}
 	rep, err := RunCheck(CheckOpts{Prop: m.Prop, Tier: "quick", RepoDir: repo, VerifDir: verif, Overlay: overlay,
 		NoEvid: true, Fast: !(CarefulPass && m.Expect == "pass"), OutDir: filepath.Join(verif, "out", "selftest", m.ID)})
+	if err == nil && m.Expect == "pass" && len(rep.Violations) > 0 {
+		// a must-stay-green edit that is reported under the fast limits (short timeouts, no retry - many mutants run
+		// side by side) is decided again with the limits of the real check before it counts as a false alarm
+		rep, err = RunCheck(CheckOpts{Prop: m.Prop, Tier: "quick", RepoDir: repo, VerifDir: verif, Overlay: overlay,
+			NoEvid: true, Fast: false, OutDir: filepath.Join(verif, "out", "selftest", m.ID)})
+	}
 	if err != nil {
 		res.Detail = "check error: " + err.Error()
 		return res
